@@ -233,4 +233,61 @@ theorem isAbs_clean (s : Bytes) : isAbs (clean s) = isAbs s := by
           have hc' : c ≠ slash := fun h => this.2 (by simp [h])
           cases as <;> simp [joinSegs, isAbs, hc']
 
+-- the spelling of a prefix does not matter -----------------------------------------------------------------------------------------
+
+theorem splitSlash_append_slash (a b : Bytes) : splitSlash (a ++ slash :: b) = splitSlash a ++ splitSlash b := by
+  induction a with
+  | nil => simp [splitSlash]
+  | cons c cs ih =>
+    simp only [List.cons_append, splitSlash]
+    by_cases hc : c = slash
+    · simp [hc, ih]
+    · simp only [hc, if_false, ih]
+      cases h : splitSlash cs with
+      | nil => 
+        -- splitSlash never returns []
+        exfalso
+        cases cs with
+        | nil => simp [splitSlash] at h
+        | cons d ds =>
+          simp only [splitSlash] at h
+          split at h
+          · simp at h
+          · split at h <;> simp at h
+      | cons s ss => simp
+
+theorem cleanSegs_append (r : Bool) (st xs ys : List Seg) :
+    cleanSegs r st (xs ++ ys) = cleanSegs r (cleanSegs r st xs).reverse ys := by
+  induction xs generalizing st with
+  | nil => simp [cleanSegs]
+  | cons x xs ih =>
+    simp only [List.cons_append, cleanSegs]
+    by_cases h1 : x = [] ∨ x = dot
+    · simp only [h1, if_true]; exact ih st
+    · simp only [h1, if_false]
+      by_cases h2 : x = dotdot
+      · simp only [h2, if_true]
+        cases st with
+        | nil => cases r <;> simp [ih]
+        | cons top st' =>
+          by_cases h3 : top = dotdot
+          · simp only [h3, if_true]; exact ih _
+          · simp only [h3, if_false]; exact ih _
+      · simp only [h2, if_false]; exact ih _
+
+/-- `Clean(prefix + "/" + name)` for a clean name = the cleaned prefix followed by the name's segments, whatever the
+    spelling of the prefix (trailing slashes, `/./`, `//`, `x/..`) -/
+theorem rootedSegs_join (spelled : Bytes) (below : List Seg) (hb : ∀ s ∈ below, Normal s) (hne : below ≠ []) :
+    rootedSegs (spelled ++ slash :: joinSegs below) = rootedSegs spelled ++ below := by
+  have hns : ∀ s ∈ below, slash ∉ s := fun s hs => (hb s hs).2.2.2
+  have hsplit : splitSlash (joinSegs below) = below := by
+    have := splitSlash_render below hns hne false
+    simp only [Bool.false_eq_true, if_false, List.append_nil] at this
+    rw [← joinSegs_render below hne] at this
+    simp only [splitSlash, if_true, List.cons.injEq, true_and] at this
+    exact this
+  unfold rootedSegs
+  rw [splitSlash_append_slash, hsplit, cleanSegs_append, cleanSegs_of_normal true _ below hb]
+  simp
+
 end GoWebdav.Lemmas.Path
